@@ -95,7 +95,7 @@ impl Scenario for DrgScn {
         k != K_BYTES
     }
     fn real_vs_stub(&self) -> &'static str {
-        "real: drg::chacha::Drg<8|12|20> (new, bytes<N>, fill_bytes<N>, fill_slice, u32, u64) and the one-call ChaCha reference; stub: scheduler/PRNG, previous buffer contents (harness side)"
+        "real: drg::chacha::Drg<8|12|20> (new, bytes<N>, fill_bytes<N>, fill_slice, u32, u64) ; stub: scheduler/PRNG, previous buffer contents, the independent ChaCha block-function model that defines the expected stream (harness side)"
     }
     fn cover_rule(&self) -> &'static str {
         "(rounds, op kind, offset-in-block class before the request {0,1,63,other}, request crosses a block boundary?)"
@@ -135,7 +135,12 @@ impl Scenario for DrgScn {
         let mut seed = [0u8; 32];
         seed.copy_from_slice(&data(t.p("seed_seed"), 32));
         let need: usize = t.ops.iter().map(|o| match o.k { K_U32 => 4, K_U64 => 8, K_FILL_SLICE => (o.len as usize).min(4096), _ => norm_menu(o.len as usize) }).sum();
-        let stream = guarded(|| one_call_stream(rounds, &seed, need + 64)).map_err(|m| Violation::new("unexpected-panic", 0, "one-call reference", m, "ChaCha::process"))?;
+        // reference: the ChaCha keystream of the specification (independent block-function model; IETF layout, all-zero
+        // nonce, from block 0). The library's own one-call ChaCha stream is computed as well, only to say in a
+        // violation report whether the cipher or the generator deviates.
+        let stream = crate::model::chacha::keystream(crate::model::chacha::Family::ChaChaIetf, &seed, &[0u8; 12], 0, 0, need + 64, rounds);
+        let lib_stream = guarded(|| one_call_stream(rounds, &seed, need + 64)).map_err(|m| Violation::new("unexpected-panic", 0, "one-call reference", m, "ChaCha::process"))?;
+        let blame = if lib_stream == stream { "" } else { " (the library's one-call ChaCha stream itself deviates from the specified keystream)" };
         let mut real = guarded(|| make(rounds, &seed)).map_err(|m| Violation::new("unexpected-panic", 0, "Drg::new", m, "drg"))?;
         let mut pos = 0usize;
         for (i, op) in t.ops.iter().enumerate() {
@@ -169,7 +174,7 @@ impl Scenario for DrgScn {
                     obs.out(&v.to_le_bytes());
                     // byte order is not part of the property: either reading of the next 4 bytes
                     if v.to_be_bytes() != want && v.to_le_bytes() != want {
-                        return Err(Violation::bytes("stream-mismatch", i, want, &v.to_be_bytes(), format!("drg R={}: u32 is not a reading of the next 4 keystream bytes at position {}", rounds, pos)));
+                        return Err(Violation::bytes("stream-mismatch", i, want, &v.to_be_bytes(), format!("drg R={}: u32 is not a reading of the next 4 keystream bytes at position {}{}", rounds, pos, blame)));
                     }
                     pos += 4;
                     obs.cov(((rounds as u32) << 8) | ((op.k as u32) << 4) | (offc << 1) | ((pos % 64 < 4) as u32));
@@ -180,7 +185,7 @@ impl Scenario for DrgScn {
                     let want = &stream[pos..pos + 8];
                     obs.out(&v.to_le_bytes());
                     if v.to_be_bytes() != want && v.to_le_bytes() != want {
-                        return Err(Violation::bytes("stream-mismatch", i, want, &v.to_be_bytes(), format!("drg R={}: u64 is not a reading of the next 8 keystream bytes at position {}", rounds, pos)));
+                        return Err(Violation::bytes("stream-mismatch", i, want, &v.to_be_bytes(), format!("drg R={}: u64 is not a reading of the next 8 keystream bytes at position {}{}", rounds, pos, blame)));
                     }
                     pos += 8;
                     obs.cov(((rounds as u32) << 8) | ((op.k as u32) << 4) | (offc << 1) | ((pos % 64 < 8) as u32));
@@ -196,7 +201,7 @@ impl Scenario for DrgScn {
                 let prev = if op.k == K_BYTES { vec![0u8; n] } else { data(op.seed, n) };
                 let xored = got.iter().zip(want.iter()).zip(prev.iter()).all(|((g, w), p)| *g == *w ^ *p);
                 let sym = if xored && op.k != K_BYTES { " symptom=xor-of-previous-contents" } else { "" };
-                return Err(Violation::bytes("stream-mismatch", i, want, &got, format!("drg R={}: {} of {} bytes at stream position {} are not the next keystream bytes{}", rounds, KINDS[op.k as usize], n, pos, sym)));
+                return Err(Violation::bytes("stream-mismatch", i, want, &got, format!("drg R={}: {} of {} bytes at stream position {} are not the next keystream bytes{}{}", rounds, KINDS[op.k as usize], n, pos, blame, sym)));
             }
             pos += n;
             obs.pos(pos as u64);
